@@ -1,11 +1,10 @@
 import Geo.Props.C07
-open Geo
-#print axioms T07_1_incidence
-#print axioms T07_1_quadric
-#print axioms T07_1_tangent
-#print axioms T07_2_cross_cofactor
-#print axioms T07_2_cofactor_is_inverse_transpose
-#print axioms T07_2_det4_mul
-#print axioms T07_2_join3_is_det
-#print axioms T07_3_bracket3
-#print axioms T07_3_crossratio_invariant
+#print axioms Geo.T07_1_incidence
+#print axioms Geo.T07_1_quadric
+#print axioms Geo.T07_1_tangent
+#print axioms Geo.T07_2_cross_cofactor
+#print axioms Geo.T07_2_cofactor_is_inverse_transpose
+#print axioms Geo.T07_2_det4_mul
+#print axioms Geo.T07_2_join3_is_det
+#print axioms Geo.T07_3_bracket3
+#print axioms Geo.T07_3_crossratio_invariant
